@@ -47,6 +47,7 @@ var initAllow = map[string]bool{
 	"unicode/utf8": true, "syscall": true, "internal/oserror": true, "math": true, "slices": true,
 	"maps": true, "cmp": true, "iter": true, "internal/bytealg": true, "internal/filepathlite": true,
 	"internal/stringslite": true, "time": true, "os/exec": false, "unicode": true,
+	"github.com/bmatcuk/doublestar/v4": true,
 }
 
 func allowInit(p *ssa.Package) bool {
